@@ -22,6 +22,7 @@ CHECKS = {
     "C10": ("msched", "model_checking", "6/C10", "Whole schedule tree under a virtual clock for every timeout value x natural completion time x mailbox state x actor death; oracle: Timeout exactly at the deadline and only if completion was not strictly earlier, Ok at the instant of completion, other errors at the instant they arise, is_retryable <=> Timeout."),
     "C11": ("msched", "model_checking", "6/C11", "All schedules of derivation chains over every handle kind with identity/is_alive/upgrade probes at every lifecycle point and after every termination cause; oracle: identity equals the spawn's, ids distinct, is_alive true before the end begins / false after join, upgrade agrees with harness-side reference bounds."),
     "C13": ("msched", "model_checking", "6/C13", "All schedules of every pair of tell/ask-family operations against an actor in each lifecycle state (live, parked, full, stopping, dead by four causes), direct and erased, build with test-utils; oracle: exactly one dead letter with matching reason/target/type/operation per failure, none per success, counter delta = failures."),
+    "C12": ("msched2", "model_checking", "6/C12", "All schedules (bound 2/3, capped per scenario) of a three-actor system (victim V, peers P and Q exchanging asks with V and with each other, two clients) with a crash injected at every hook of V - on_start panic/error, three different handlers, first and second on_run (panic and error), on_stop panic/error - and, in the all-features build, a provoked deadlock-detection panic (self-ask, and a genuine cycle with a peer); run on the all-features build and on the default build; oracle: the victim's JoinHandle reports the panic/failure, no on_stop after a panic, its senders get errors, the C01-C05/C08/C11 oracles hold for every surviving actor, dead-letter accounting is exact (C13 oracle), follow-up asks between survivors and to a freshly spawned actor succeed, ids advance, the wait-for graph is empty and its lock not poisoned."),
     "C14": ("msched", "model_checking", "6/C14", "Whole schedule tree (quick bound 3, in practice exhaustive) of ask rings of length 1-3 (4 thorough) whose edges are issued from every hook (on_start, handler, on_run, on_stop) and with every ask flavour (ask, ask_with_timeout, erased AskHandler), each edge with its own trigger so that the schedule decides the creation order, plus nested chains; build with deadlock-detection; oracle: an ask that closes a cycle of unanswered in-flight asks (harness-side relation) panics at once with a message naming every actor of the cycle, nobody is left waiting at global quiescence, the wait-for graph (hook H1) contains the edge of every blocked asker."),
     "C15": ("msched", "model_checking", "6/C15", "Same rings (where in most schedules the asks do not all overlap) plus acyclic-in-time/cyclic-in-topology families with every way an ask can end (reply, timeout, callee killed, callee panics, on_run cancelled), 2 and 3 actors, typed and erased; oracle: every Deadlock panic is justified by a chain of unanswered in-flight asks at that instant, only pending asks of their owner appear in the graph (H1), non-actor callers never appear or panic, the graph is empty once every ask has finished. This check found defect D1 (see known_findings.json), repaired by the fix: commit."),
     "C16": ("diff", "model_checking", "6/C16", "Differential model checking: for every direct program (2 clients, <=3 (4) operations over tell/ask/timeouts/stop/kill/is_alive/drop, weak handles around the actor's end, futures created but not awaited) the whole schedule tree of the direct run and of each erased variant (owned From, borrowed From, clone_boxed, boxed downgrade/upgrade round trip; one or both clients) is explored on the real code; same schedule must give the same observable trace (results, errors, hook traces, virtual timing, dead letters, termination), else the two sets of traces of the complete trees must be equal."),
@@ -61,7 +62,7 @@ manifest = {
         "add_only": True,
     },
     "engines": [
-        {"name": "msched", "path": "/verif/harness", "serves_properties": sorted(k for k, v in CHECKS.items() if v[0] in ("msched", "diff", "features")),
+        {"name": "msched", "path": "/verif/harness", "serves_properties": sorted(k for k, v in CHECKS.items() if v[0] in ("msched", "msched2", "diff", "features")),
          "kind_free_text": "controlled deterministic task scheduler + virtual clock on a real tokio current-thread runtime running the real rsactor code; stateless DFS with replay, preemption-bounded"},
     ],
     "checks": checks,
